@@ -1084,6 +1084,44 @@ theorem timeout_only_in_slack {W M : Nat} (hw2 : 2 ≤ W) (l0 : LMon) (h0 : Time
     (hto : ((runLink l0 ops).get x).e.timeout (runLink l0 ops).now = true) : Slack W (runLink l0 ops) x :=
   timeout_slack (timed_run hw2 ops l0 h0 hw ht) x hto
 
+/-- **`close_only_in_slack`** (timed link, whole run): start from an open timed link whose state
+satisfies `Timed` (e.g. right after the handshake, `timed_after_handshake`) and run any schedule of
+operations and timeout checks whose executed link operations are timely.  If the session ends up
+closed, then at the moment the timeout fired (after the prefix `tops1`, at end `x`) the direction
+`x → peer` was in the `Slack` state. -/
+theorem close_only_in_slack {W M : Nat} (hw2 : 2 ≤ W) (tops : List TOp) : ∀ (t : TMon), t.closed = false →
+    Timed W M t.l → WfTSched tops → TimelyFrom t.l (executed t tops) → (runT t tops).closed = true →
+    ∃ tops1 x, tops1 <+: tops ∧ (runT t tops1).closed = false ∧ Slack W (runT t tops1).l x ∧
+      ((runT t tops1).l.get x).e.timeout (runT t tops1).l.now = true := by
+  induction tops with
+  | nil => intro t hc _ _ _ h; simp only [runT] at h; rw [hc] at h; cases h
+  | cons o os ih =>
+    intro t hc ht hw htl hcl
+    have hw' : WfTSched os := fun o' ho => hw o' (List.mem_cons_of_mem _ ho)
+    cases o with
+    | op o =>
+      have hstep : t.step (.op o) = { t with l := t.l.step1 o } := by
+        simp only [TMon.step, hc, Bool.false_and, Bool.false_eq_true, if_false]
+      simp only [executed, hc, Bool.false_and, Bool.false_eq_true, if_false] at htl
+      rw [hstep] at htl
+      have ht' : Timed W M (t.l.step1 o) := timed_step1 ht hw2 (hw o List.mem_cons_self) htl.1
+      simp only [runT] at hcl
+      rw [hstep] at hcl
+      obtain ⟨tops1, x, hp, h1, h2, h3⟩ := ih { t with l := t.l.step1 o } hc ht' hw' htl.2 hcl
+      refine ⟨.op o :: tops1, x, List.cons_prefix_cons.mpr ⟨rfl, hp⟩, ?_, ?_, ?_⟩ <;>
+        (simp only [runT]; rw [hstep]; assumption)
+    | timeout x =>
+      by_cases hf : (t.l.get x).e.timeout t.l.now = true
+      · exact ⟨[], x, List.nil_prefix, hc, timeout_slack ht x hf, hf⟩
+      · have hstep : t.step (.timeout x) = t := by simp only [TMon.step, hf, Bool.false_eq_true, if_false]
+        simp only [executed] at htl
+        rw [hstep] at htl
+        simp only [runT] at hcl
+        rw [hstep] at hcl
+        obtain ⟨tops1, x', hp, h1, h2, h3⟩ := ih t hc ht hw' htl hcl
+        refine ⟨.timeout x :: tops1, x', List.cons_prefix_cons.mpr ⟨rfl, hp⟩, ?_, ?_, ?_⟩ <;>
+          (simp only [runT]; rw [hstep]; assumption)
+
 /-- Non-vacuity of `Timed`: the state right after an (instantaneous) handshake between two fresh
 ends, window 79, segment size 20. -/
 theorem timed_after_handshake : Timed 79 20 (runLink (freshLink false false none none) handshakeOps) := by
